@@ -1,5 +1,7 @@
 SPECIFICATION Spec
 CONSTANTS
+  NamesUsed = {"r1", "l1", "l2", "m1"}
+  InitAuto = FALSE
   TwoPaths = FALSE
   MaxLen = 3
 INVARIANTS
